@@ -2,7 +2,7 @@
    [Node kind pos end attrs children] (children in ast.Walk order, comment groups included where ast.Walk
    visits them) with go/types facts attached by the serializer (ggx skel) verbatim. *)
 From Coq Require Import List String ZArith Bool.
-From GG Require Import Base.Strs.
+From GG Require Import Base.Strs Model.GoTypes.
 Import ListNotations.
 Local Open Scope Z_scope.
 
@@ -153,7 +153,8 @@ Record package := {
   p_path : string;
   p_name : string;
   p_files : list file;
-  p_imports : list string                 (* pass.Pkg.Imports(): paths of the direct imports, in order *)
+  p_imports : list string;                (* pass.Pkg.Imports(): paths of the direct imports, in order *)
+  p_types : typetable                     (* interfaces of the package and of its direct imports, defined types of the package *)
 }.
 
 (* physical line of a position (PositionFor(pos, false).Line): number of line starts <= pos *)
